@@ -115,7 +115,11 @@ def apply_real(ctx, op, cur, env, readers=None):
         other = env[op["with"]]
         a, b = (cur, other) if op.get("first", True) else (other, cur)
         lim = op.get("limit")
-        if readers is None and lim is None:
+        if op.get("cli") and lim is None:
+            st = tools.combine_cli(a, b, out, op.get("v1"), op.get("v2"))          # the console script
+            if st != 0:
+                raise RuntimeError(f"the combine console script exited with status {st!r}")
+        elif readers is None and lim is None:
             tools.combine(a, b, out, op.get("v1"), op.get("v2"))
         else:
             from amr_kitchen import PlotfileCooker
@@ -200,6 +204,14 @@ def run_seq(ctx, rep, spec, sib, ops, start=None, source="plotgen", reuse=False)
                 rep.count("wf-certificate-passes")
             elif cert != "names":
                 rep.tie(f"step {n} ({op['op']}): the intermediate result does not pass the Lean well-formedness certificate ({cert})", case)
+            # the header of this step's output derives from the header of its (first) input by the Lean writer model
+            src = cur if op["op"] != "combine" or op.get("first", True) else env[op["with"]]
+            w2 = writers.output_header_matches_rewrite(src, out, op.get("limit") if op["op"] != "chef" else None, P["fields"],
+                                                       op["op"], leanio, rep)
+            if w2:
+                rep.tie(f"step {n} ({op['op']}): header derivation: {w2}", case)
+            else:
+                rep.count("output-header-is-the-writer-model's")
             why = writers.global_header_theorem_applies(out, leanio)
             if why:
                 rep.tie(f"step {n} ({op['op']}): global header of the intermediate result: {why}", case)
@@ -210,7 +222,7 @@ def run_seq(ctx, rep, spec, sib, ops, start=None, source="plotgen", reuse=False)
     rep.agree()
 
 
-def gen_ops(rng, spec, sib, kinds):
+def gen_ops(rng, spec, sib, kinds, trunc=False):
     """operation arguments for a sequence of kinds, chosen so that the pure sequence is defined
     (a combine always has something to add, the mesh is only truncated when no combine follows)"""
     names = list(dedup_names(spec["fields"]))
@@ -228,6 +240,8 @@ def gen_ops(rng, spec, sib, kinds):
             sel = rng.choice([["all"], fields[::-1], fields[:1] + ["nope"], rng.sample(fields, max(1, len(fields) - 1))])
             # a later combination opens its other operand with the same level limit, so the meshes still agree
             lim = rng.choice([None, cur_levels - 1, 0] if not combine_later else [None, None, cur_levels - 1, max(cur_levels - 2, 0)])
+            if trunc and combine_later and cur_levels >= 2:
+                lim = cur_levels - 2          # a strain that drops the finest level, followed by a combination
             if lim is not None:
                 cur_levels = lim + 1
             if nxt.startswith("combine-ancestor") and len(fields) > 1:
@@ -252,7 +266,8 @@ def gen_ops(rng, spec, sib, kinds):
                 choice = "ancestor" if any(x not in fields for x in names) else "sibling"
             if choice == "sibling":
                 v2 = rng.choice([None, [x for x in snames if x not in fields][:1]])
-                ops.append({"op": "combine", "with": "sibling", "first": True, "v1": None, "v2": v2, "limit": cur_levels - 1 if cur_levels < nlev else None})
+                ops.append({"op": "combine", "with": "sibling", "first": True, "v1": None, "v2": v2, "limit": cur_levels - 1 if cur_levels < nlev else None,
+                            "cli": v2 is not None or rng.random() < 0.3})
                 fields = fields + [x for x in (snames if v2 is None else v2) if x not in fields]
             elif choice == "ancestor":
                 ops.append({"op": "combine", "with": "orig", "first": True, "v1": None, "v2": None, "limit": cur_levels - 1 if cur_levels < nlev else None})
@@ -273,11 +288,18 @@ def run(ctx, rep, model=True):
     seqs.append(["chef", "combine-ancestor-first", "colander", "combine-ancestor-first"])
     seqs.append(["combine-sibling", "chef", "colander", "combine-ancestor-first", "chef", "colander", "combine-ancestor-first"])
     seqs.append(["chef", "combine-ancestor-first", "colander", "combine-ancestor"])
+    # a strain that drops the finest level, then combinations whose first / second reader is opened with that limit on a
+    # plotfile holding more levels
+    trunc_seqs = [["colander", "combine-ancestor-first"], ["colander", "combine-ancestor"], ["chef", "colander", "combine-ancestor-first", "combine-sibling"],
+                  ["colander", "combine-sibling", "combine-ancestor-first"]]
+    seqs += trunc_seqs
     # the two corollaries named by the property
     seqs.append("cook-combine-back"); seqs.append("strain-all")
     for i, ks in enumerate(seqs):
+        is_trunc = any(ks is t for t in trunc_seqs)
         for _ in range(20):
-            spec = plotgen.random_spec(ctx.rng, ndims=3, nlev=[2, 1, 3][i % 3], nf=[2, 3][i % 2], data="smallint", B=2,
+            spec = plotgen.random_spec(ctx.rng, ndims=3, nlev=[2, 3][i % 2] if is_trunc else [2, 1, 3][i % 3],
+                                       nf=[2, 3][i % 2], data="smallint", B=2,
                                        layout=["perm", "scatter", "perm", "files"][i % 4], profile="plain")
             # pipelines are only telling on layouts that are not in box order inside a file
             if i % 4 == 3 or "nonmonotone" in plotgen.describe(spec):
@@ -291,7 +313,7 @@ def run(ctx, rep, model=True):
         elif ks == "strain-all":
             ops = [{"op": "colander", "vars": ["all"], "limit": None}]
         else:
-            ops = gen_ops(ctx.rng, spec, sib, ks)
+            ops = gen_ops(ctx.rng, spec, sib, ks, trunc=is_trunc)
         run_seq(ctx, rep, spec, sib, ops, start=[None, pools.order_reversed][i % 2], reuse=(i % 3 != 0))
         if len(rep.violations) >= 10:
             return
